@@ -471,7 +471,43 @@ def document_corr(ctx: vlib.Ctx):
     ctx.sample({"document_case": descr[0][:400]} if descr else {})
 
 
-_NT = None
+def decoder_accepts(fmt: str, T, D):
+    """(accepts {'nt': {'x': 1, 'y': 2}}, accepts {'nt': [1, 2]}) for the real Decoder of the format"""
+    import json as _json
+    import msgpack
+    import orjson
+    import tomli_w
+    import yaml
+    from mashumaro.codecs import BasicDecoder
+    from mashumaro.codecs.json import JSONDecoder
+    from mashumaro.codecs.msgpack import MessagePackDecoder
+    from mashumaro.codecs.orjson import ORJSONDecoder
+    from mashumaro.codecs.toml import TOMLDecoder
+    from mashumaro.codecs.yaml import YAMLDecoder
+    table = {"FBasic": (BasicDecoder, lambda d: d), "FJson": (JSONDecoder, _json.dumps), "FYaml": (YAMLDecoder, yaml.safe_dump),
+             "FOrjson": (ORJSONDecoder, orjson.dumps), "FMsgpack": (MessagePackDecoder, lambda d: msgpack.packb(d, use_bin_type=True)),
+             "FToml": (TOMLDecoder, tomli_w.dumps)}
+    cls, render = table[fmt]
+    dec = cls(T) if D is None else cls(T, default_dialect=D)
+    out = []
+    for doc in ({"nt": {"x": 1, "y": 2}}, {"nt": [1, 2]}):
+        try:
+            r = dec.decode(render(doc))
+            out.append(tuple(r.nt) == (1, 2))
+        except Exception:  # noqa: BLE001
+            out.append(False)
+    return tuple(out)
+
+
+from typing import NamedTuple as _NamedTuple
+
+
+class NTm(_NamedTuple):          # module-level: generated code refers to it as <module>.NTm
+    x: int
+    y: int
+
+
+_NT = NTm
 
 
 def NTHolder(cns: dict):
@@ -480,8 +516,6 @@ def NTHolder(cns: dict):
     from dataclasses import dataclass, field
     from typing import NamedTuple
     from mashumaro.config import BaseConfig
-    if _NT is None:
-        _NT = NamedTuple("NTm", [("x", int), ("y", int)])
     T = dataclass(type("H", (), {"__annotations__": {"nt": _NT}, "nt": _NT(1, 2), "Config": type("Config", (BaseConfig,), dict(cns))}))
     return T
 
@@ -551,6 +585,13 @@ def namedtuple_mode_corr(ctx: vlib.Ctx):
                         beh = isinstance(out.get("nt"), dict)
                     except Exception as e:  # noqa: BLE001
                         beh = f"{type(e).__name__}"
+                    # ... and the real Decoder: a dict document is accepted iff as_dict, a list document iff not
+                    dec = decoder_accepts(fmt, NTHolder(cns), D)
+                    if dec != (got, not got):
+                        ctx.fail(f"{fmt} decoder with default_dialect namedtuple_as_dict={dmode}, Config.dialect={cfgd}, Config={cfg}: accepts "
+                                 f"(dict document, list document) = {dec}, the builder resolves as_dict={got}",
+                                 {"entry": "ntmode", "format": fmt, "dialect": str(dmode), "config_dialect": cfgd, "config": cfg,
+                                  "observed": str(dec), "expected": got}, {"kind": "namedtuple-mode-not-resolved", "format": fmt, "side": "decode"})
                     if beh != got:
                         ctx.fail(f"{fmt} encoder with default_dialect namedtuple_as_dict={dmode}, Config.dialect={cfgd}, Config={cfg}: "
                                  f"named tuple rendered as {'dict' if beh is True else 'list' if beh is False else beh}, the builder resolves as_dict={got}",
@@ -604,8 +645,9 @@ def ntmode_replay(rep: dict) -> int:
         beh = isinstance(pre_encoder_mapping(fmt, NTHolder(cns), D, None).get("nt"), dict)
     except Exception as e:  # noqa: BLE001
         beh = type(e).__name__
-    print("resolved as_dict", got, "rendered as dict", beh)
-    if beh != got:
+    dec = decoder_accepts(fmt, NTHolder(cns), D)
+    print("resolved as_dict", got, "rendered as dict", beh, "decoder accepts (dict, list)", dec)
+    if beh != got or dec != (got, not got):
         print("REPRODUCED")
         return 1
     print("not reproduced")
